@@ -308,9 +308,10 @@ def make_load(rnd, consts, p):
                 items.append({"k": "Q", "ip": rnd.choice(allips), "intf": rnd.choice(consts["intfs"])})
             elif j < 2:
                 items.append({"k": "Arp", "ip": rnd.choice(v4), "aop": pick([("request", .7), ("reply", .15), ("other", .15)]),
-                              "dst": pick([("self", .5), ("bcast", .3), ("other", .1), ("near", .1)])})
+                              "dst": pick([("self", .45), ("bcast", .25), ("other", .2), ("near", .1)]),
+                              "tha": pick([("zero", .4), ("self", .35), ("other", .25)])})
             else:
-                items.append({"k": "Ndp", "ip": rnd.choice(v6), "nk": pick([("ns", .7), ("nsNoLL", .15), ("na", .15)])})
+                items.append({"k": "Ndp", "ip": rnd.choice(v6), "nk": pick([("ns", .55), ("ns2", .15), ("nsNoLL", .15), ("na", .15)])})
         q.append(items)
     scopes = [{"all": True, "ifs": []}, {"all": False, "ifs": ["if1"]}, {"all": False, "ifs": ["if2"]}]
     g = [dict(rnd.choice(scopes), ip=rnd.choice(consts["ips"])) for _ in range(p["grat"])]
